@@ -1,12 +1,114 @@
 /-
-  Props.C08 — the theorems that decide property C08 (see DESIGN.md §7).
+  Props.C08 — slices select what Python-style extended slicing selects, for
+  all integers (DESIGN.md §7, C08).
+
+  Model side: `Interp.eval … (.slice a b c)` → `Slice.slice` = util.go's
+  computeSliceParams / capSlice / the two loops, with 64-bit wrap-around on
+  every arithmetic operation, a panic on every out-of-range `slice[i]` and a
+  bounded fuel whose exhaustion models a hang.
+  Spec side: `Spec.pySlice` = Python's definition (indices start + n·step for
+  0 ≤ n < ⌈(stop − start)/step⌉ after PySlice_AdjustIndices), no loop.
 -/
 import Props.Tables
+import Proofs.Slice
+import Jmes.Interp
 namespace Jmes.Props
-open Jmes
+open Jmes Jmes.Slice Jmes.Spec
 
 theorem C08_generated_table_ok : TableOK Generated.table = true := generated_table_ok
 theorem C08_generated_sigs_ok : SigsOK Generated.functionTable Spec.functionTable = true := generated_sigs_ok
 theorem C08_generated_lex_ok : LexTablesOK Model.lexTables Spec.lexTables = true := generated_lex_ok
+
+/-- 64-bit operands, as `strconv.Atoi` delivers them. -/
+def OptInRange (v : Option Int) : Prop := ∀ x, v = some x → InRange x
+
+/-- Main theorem: on an array, for every length and every present or absent
+    start/stop/step in the int64 range with step ≠ 0, the slice expression
+    evaluates — without panic, hang or error — to exactly the elements Python's
+    extended slicing selects, in that order. -/
+theorem C08_slice_is_python_slice {N : Type} [NumOps N] (ft : List FnEntry) (xs : List (Val N))
+    (a b c : Option Int) (hlen : InRange xs.length)
+    (ha : OptInRange a) (hb : OptInRange b) (hc : OptInRange c) (h0 : c ≠ some 0) :
+    Interp.eval ft (.slice a b c) (.arr xs)
+      = .ok (.arr ((pySlice xs.length a b (c.getD 1)).filterMap (getIdx xs))) := by
+  simp only [Interp.eval]
+  rw [slice_eq_pySlice xs a b c hlen ha hb hc h0]
+
+/-- Every index Python selects exists, so `filterMap` above drops nothing:
+    the result has exactly one element per selected index. -/
+theorem C08_every_selected_index_exists {α} (xs : List α) (a b : Option Int) (step : Int) (hs : step ≠ 0) :
+    ((pySlice xs.length a b step).filterMap (getIdx xs)).length = (pySlice xs.length a b step).length := by
+  have hb := pySlice_inbounds xs.length a b step hs
+  generalize pySlice xs.length a b step = l at hb
+  induction l with
+  | nil => rfl
+  | cons i rest ih =>
+    obtain ⟨x, hx⟩ := getIdx_some xs i (hb i (by simp)).1 (hb i (by simp)).2
+    simp only [List.filterMap_cons, hx, List.length_cons]
+    rw [ih (fun j hj => hb j (by simp [hj]))]
+
+/-- The model's `getIdx` is plain indexing. -/
+theorem C08_getIdx_is_indexing {α} (xs : List α) (i : Nat) : getIdx xs (i : Int) = xs[i]? := by
+  unfold getIdx
+  have : ¬ ((i : Int) < 0) := by omega
+  simp [this]
+
+/-- A step of 0 is an error when applied to an array … -/
+theorem C08_step_zero_is_error {N : Type} [NumOps N] (ft : List FnEntry) (xs : List (Val N)) (a b : Option Int) :
+    ∃ e, Interp.eval ft (.slice a b (some 0)) (.arr xs) = .err e :=
+  ⟨.other "Invalid slice, step cannot be 0", by simp [Interp.eval, Slice.slice, computeSliceParams, stepOf]⟩
+
+/-- … and slicing anything that is not an array yields null, whatever the parameters. -/
+theorem C08_non_array_is_null {N : Type} [NumOps N] (ft : List FnEntry) (d : Val N) (a b c : Option Int)
+    (hd : ∀ xs, d ≠ .arr xs) : Interp.eval ft (.slice a b c) d = .ok .null := by
+  cases d with
+  | arr xs => exact absurd rfl (hd xs)
+  | null => simp [Interp.eval]
+  | bool _ => simp [Interp.eval]
+  | num _ => simp [Interp.eval]
+  | str _ => simp [Interp.eval]
+  | obj _ => simp [Interp.eval]
+
+/-- No parameter value, however large, causes a panic or a hang. -/
+theorem C08_never_panics {N : Type} [NumOps N] (ft : List FnEntry) (d : Val N) (a b c : Option Int)
+    (hlen : ∀ xs, d = .arr xs → InRange xs.length)
+    (ha : OptInRange a) (hb : OptInRange b) (hc : OptInRange c) :
+    (Interp.eval ft (.slice a b c) d).isPanic = false := by
+  cases d with
+  | arr xs =>
+    by_cases h0 : c = some 0
+    · subst h0
+      obtain ⟨e, he⟩ := C08_step_zero_is_error ft xs a b
+      rw [he]; rfl
+    · rw [C08_slice_is_python_slice ft xs a b c (hlen xs rfl) ha hb hc h0]; rfl
+  | null => simp [Interp.eval, Res.isPanic]
+  | bool _ => simp [Interp.eval, Res.isPanic]
+  | num _ => simp [Interp.eval, Res.isPanic]
+  | str _ => simp [Interp.eval, Res.isPanic]
+  | obj _ => simp [Interp.eval, Res.isPanic]
+
+/-- The integers of a slice literal come from `strconv.Atoi`: always in the int64 range. -/
+theorem C08_parsed_integers_in_range (s : Bytes) (v : Int) (h : Parser.atoi s = some v) : InRange v := by
+  unfold Parser.atoi at h
+  obtain ⟨w, _, hw⟩ := Option.bind_eq_some_iff.mp h
+  unfold Parser.clampInt64 at hw
+  split at hw
+  · rename_i hr
+    cases hw
+    unfold InRange; unfold Parser.minInt64 Parser.maxInt64 at hr
+    omega
+  · exact absurd hw (by simp)
+
+/-! Non-vacuity: concrete instances of the hypotheses and of the statement. -/
+
+example : InRange ((List.range 5).length : Int) ∧ OptInRange (some (-6)) ∧ OptInRange none ∧ (some (-1) : Option Int) ≠ some 0 := by
+  refine ⟨by unfold InRange; decide, ?_, ?_, by decide⟩
+  · intro x h; cases h; unfold InRange; decide
+  · intro x h; cases h
+
+example : pySlice 5 none (some (-6)) (-1) = [4, 3, 2, 1, 0] := by decide
+example : pySlice 4 none (some (-4)) (-1) = [3, 2, 1] := by decide
+example : pySlice 3 (some 1) none 9223372036854775807 = [1] := by decide
+example : Slice.slice [10, 11, 12, 13] (some (-9223372036854775808)) none none = .ok [10, 11, 12, 13] := by rfl
 
 end Jmes.Props
